@@ -1563,7 +1563,9 @@ pub fn generate_post(rng: &mut Rng, n: u64, emit: &mut dyn FnMut(Vec<String>)) {
             for (tag, name, demanded) in [("content-type", "Content-Type", "application/pdf"), ("meta", "x-amz-meta-note", "another note")] {
                 let mut pl = plain.clone();
                 if !pl.iter().any(|(n, _)| n == name) {
-                    pl.push((name.to_owned(), "something".to_owned()));
+                    // a value the field's own type admits (Content-Type must be a media type, or PutObject's input
+                    // decoding refuses the form with InvalidArgument before the policy question arises)
+                    pl.push((name.to_owned(), if tag == "content-type" { "text/x-something" } else { "something" }.to_owned()));
                 }
                 let cs = replace_field(name, PCond::Eq { field: name.to_owned(), value: demanded.to_owned(), array: rng.chance(1, 2) });
                 all.push(assemble(&format!("policy-eq-violated.{tag}"), &pl, &render_policy(&expiration, &cs, sp), table(), &file).0);
